@@ -187,6 +187,22 @@ carquet_status_t carquet_reader_row_group_matches(
     const parquet_schema_element_t* elem = &reader->schema->elements[schema_idx];
     carquet_physical_type_t type = elem->has_type ? elem->type : CARQUET_PHYSICAL_BYTE_ARRAY;
 
+    /* NaN is unordered: a NaN probe cannot be decided from min/max, and a NaN
+     * min or max carries no information (Parquet: such statistics are ignored) */
+    if (type == CARQUET_PHYSICAL_FLOAT) {
+        float p, lo, hi;
+        memcpy(&p, value, sizeof p);
+        memcpy(&lo, stats.min_value, sizeof lo);
+        memcpy(&hi, stats.max_value, sizeof hi);
+        if (p != p || lo != lo || hi != hi) return CARQUET_OK;
+    } else if (type == CARQUET_PHYSICAL_DOUBLE) {
+        double p, lo, hi;
+        memcpy(&p, value, sizeof p);
+        memcpy(&lo, stats.min_value, sizeof lo);
+        memcpy(&hi, stats.max_value, sizeof hi);
+        if (p != p || lo != lo || hi != hi) return CARQUET_OK;
+    }
+
     compare_fn_t cmp_fn = get_compare_fn(type);
 
     int cmp_min, cmp_max;
